@@ -227,4 +227,12 @@ def PROP_MODULES_PRESENT():
 
 
 if __name__ == '__main__':
-    sys.exit(main())
+    try:
+        rc = main()
+    except SystemExit:
+        raise
+    except BaseException:
+        traceback.print_exc()
+        print('ENGINE-ERROR: the check itself failed (e.g. a MIR form the parser does not know); no verdict', flush=True)
+        rc = 2
+    sys.exit(rc)
